@@ -263,6 +263,21 @@ def gen_cus(rng, c, r, addr_pre):
                 if it['t'] == 'list' and k < u['noff']:
                     tabidx[ii] = k
                     k += 1
+        # DW_AT_ranges on the unit entry itself (CU ranges: sec_offset from GCC, rnglistx from clang); the unit entry's
+        # index forms are translated by a deferred pass of get_top_DIE, a different path from inner entries
+        if what == 'rng' and rng.random() < 0.35:
+            cand = [(ii, it) for ii, it in enumerate(ur['items']) if it['t'] == 'list']
+            if cand:
+                ii, it = rng.choice(cand)
+                opts = []
+                if cuver >= 5 and ii in tabidx:
+                    opts += [('DW_FORM_rnglistx', tabidx[ii])] * 2
+                if cuver >= 4 and (fmt64 or it['off'] < 1 << 32):
+                    opts.append(('DW_FORM_sec_offset', it['off']))
+                if opts:
+                    form, raw = rng.choice(opts)
+                    top.append(('DW_AT_ranges', form, raw))
+                    refs.append((len(cus), 0, 'DW_AT_ranges', ui, ii))
         for ii, it in enumerate(ur['items']):
             if it['t'] != 'list' or rng.random() < 0.25:
                 continue
@@ -310,6 +325,11 @@ def gen_cus(rng, c, r, addr_pre):
 
 
 # --------------------------------------------------------------------------- the real library
+class Runaway(Exception):
+    """an enumeration produced more items than the section has bytes: reported as an ordinary (wrong) outcome instead of
+    letting the harness run out of memory"""
+
+
 class World:
     """sections + DWARFInfo for one case"""
 
@@ -331,6 +351,26 @@ class World:
 
     def die(self, ci, di_):
         return list(self.cu(ci).iter_DIEs())[di_]
+
+    def disturbing(self, offs):
+        d = getattr(self, 'data', b'') or b''
+        return bool(offs) and (sum(d[:16]) + len(d)) % 2 == 0
+
+    def disturb(self, offs, k):
+        """Between two advances of a suspended enumeration, fetch a list of the same section through the public API:
+        the section stream is shared, and the property does not let an enumeration depend on where it was left
+        (a seeded sequential `iter_CUs` was missed while the enumeration was always drained in one go).  Whether a case
+        is disturbed is derived from its content, so both paths stay covered and a replay is exact."""
+        if not self.disturbing(offs):
+            return
+        off = offs[k % len(offs)]
+        try:
+            if self.c['what'] == 'rng':
+                self.lists.get_range_list_at_offset_ex(off)
+            else:
+                self.lists.get_location_list_at_offset(off)
+        except Exception:       # noqa: BLE001
+            pass
 
     def model_req(self, call, **kw):
         c = self.c
@@ -359,10 +399,35 @@ class World:
             return [cn(L.translate_v5_entry(e, cu)) for e in L.get_range_list_at_offset_ex(kw['off'])]
         if call == 'iter':
             return cn(list(L.iter_location_lists() if what == 'loc' else L.iter_range_lists()))
+        # every block / list takes at least one byte of its section
+        cap = len(getattr(self, 'data', None) or (getattr(self, 'd4', b'') + getattr(self, 'd5', b''))) + 2
+
+        def capped(it):
+            out = []
+            for x in it:
+                out.append(x)
+                if len(out) > cap:
+                    raise Runaway('more items than section bytes')
+            return out
         if call == 'iter_cus':
-            return cn(list(L.iter_CUs()))
+            out = []
+            for k, h in enumerate(L.iter_CUs()):
+                out.append(h)
+                if len(out) > cap:
+                    raise Runaway('more unit blocks than section bytes')
+                self.disturb(kw.get('disturb'), k)
+            return cn(out)
         if call == 'iter_cus_ex':
-            return [cn(list(L.iter_CU_range_lists_ex(h))) for h in list(L.iter_CUs())]
+            if not self.disturbing(kw.get('disturb')):
+                return [cn(capped(L.iter_CU_range_lists_ex(h))) for h in capped(L.iter_CUs())]
+            out = []
+            for k, h in enumerate(L.iter_CUs()):
+                if len(out) > cap:
+                    raise Runaway('more unit blocks than section bytes')
+                self.disturb(kw.get('disturb'), k + 1)
+                out.append(cn(capped(L.iter_CU_range_lists_ex(h))))
+                self.disturb(kw.get('disturb'), k)
+            return out
         if call == 'attr':
             from elftools.dwarf.locationlists import LocationParser
             cu = self.cu(kw['cuidx'])
@@ -455,9 +520,10 @@ def sec_calls(c, r, cus, refs):
         exp = [lists[(ui, ii)]['views'] + lists[(ui, ii)]['tr'] for (_, ui, ii) in seen] if allwf else None
         calls.append(('iter', {}, exp, allwf))
         if ver >= 5:
-            calls.append(('iter_cus', {}, [ur['hdr'] for ur in r['units']], r['wf']))
+            offs = sorted({it['off'] for it in lists.values()})
+            calls.append(('iter_cus', {'disturb': offs}, [ur['hdr'] for ur in r['units']], r['wf']))
             if what == 'rng':
-                calls.append(('iter_cus_ex', {}, [ur['lists'] for ur in r['units']], allwf))
+                calls.append(('iter_cus_ex', {'disturb': offs}, [ur['lists'] for ur in r['units']], allwf))
     return calls
 
 
@@ -488,10 +554,10 @@ def run_sec(ctx):
                 for e in it.get('entries', []):
                     ctx.out.count('sec:entry:%s' % (e['code'] if isinstance(e, dict) else e[0]))
         for cu in cus:
-            for die in cu['dies'][1:]:
+            for k, die in enumerate(cu['dies']):
                 for n, f, _ in die:
                     if n in LOC_ATTRS or n == 'DW_AT_ranges':
-                        ctx.out.count('sec:ref:' + f)
+                        ctx.out.count('sec:ref:' + f + (':top' if k == 0 else ''))
         for call, kw, exp, wf in sec_calls(c, r, cus, refs):
             todo.append((w, call, kw, exp, wf))
     models = ctx.driver.ask_many([w.model_req(call, **kw) for (w, call, kw, exp, wf) in todo])
